@@ -287,24 +287,51 @@ func typeLoadable(major int, t byte) bool {
 }
 
 // sinceEntryStart counts the requests of the current entry that precede the one
-// being applied on this connection: the immediately preceding requests on the
-// same key, back to (not including) a PEXPIRE, which ends an entry.
+// being applied on this connection. An entry's requests are, in order: [restore
+// [restore … REPLACE]] [exists [del]] data commands… [pexpire]; a split value's
+// later chunks have no probe but follow the previous chunk's PEXPIRE.
 func (c *Conn) sinceEntryStart(key string) int64 {
-	n := int64(0)
 	hk := hx([]byte(key))
-	for i := len(c.Log) - 2; i >= 0; i-- { // Log[len-1] is the request being applied
+	parse := func(i int) (cmd, k string, replace bool) {
 		f := strings.Fields(c.Log[i])
-		if len(f) < 2 || strings.EqualFold(f[0], "pexpire") {
-			break
+		if len(f) < 2 {
+			return "", "", false
 		}
-		k := f[1]
-		if strings.EqualFold(f[0], "xgroup") && len(f) > 2 {
+		cmd, k = strings.ToLower(f[0]), f[1]
+		if cmd == "xgroup" && len(f) > 2 {
 			k = f[2]
 		}
-		if k != hk {
+		return cmd, k, cmd == "restore" && f[len(f)-1] == hx([]byte("REPLACE"))
+	}
+	cur, _, curRepl := parse(len(c.Log) - 1) // the request being applied
+	if cur == "restore" && !curRepl {
+		return 0 // first request of its entry
+	}
+	n := int64(0)
+	i := len(c.Log) - 2
+	if cur != "restore" {
+		for ; i >= 0; i-- {
+			cmd, k, _ := parse(i)
+			if k != hk || cmd == "pexpire" || cmd == "restore" || cmd == "" {
+				break
+			}
+			n++
+			if cmd == "exists" {
+				i--
+				break
+			}
+		}
+	}
+	// the failed RESTORE attempt(s) that precede a fall-back expansion / the REPLACE retry
+	for ; i >= 0; i-- {
+		cmd, k, repl := parse(i)
+		if cmd != "restore" || k != hk {
 			break
 		}
 		n++
+		if !repl {
+			break
+		}
 	}
 	return n
 }
